@@ -44,7 +44,7 @@ def gen_cases(ctx):
                     td["with-resets"] = True
                 cases.append({"kind": "catalogue", "inpkg": inpkg, "genseed": ctx.seed * 31 + inpkg, "idx": ch, "template": "matryer", "formatter": "goimports",
                               "placement": "inpkg-test" if inpkg else rng.choice(["outpkg", "xtest"]), "td": td, "gomod": "plain", "srckind": "ordinary",
-                              "drvseed": rng.randrange(1, 1 << 20), "td_level": ["root", "iface", "recparent"][ci % 3]})
+                              "drvseed": rng.randrange(1, 1 << 20), "td_level": ["root", "iface", "recparent"][ci % 3], "golang": [None, "1.21", None, "1.20", None, "1.18"][ci % 6]})
     # every option true at the top level and explicitly false (its default) on every second interface: an explicit default is a setting, not an absence
     for inpkg in ((True,) if ctx.tier == "quick" else (True, False)):
         for k in range(2 if ctx.tier == "quick" else 6):
